@@ -102,12 +102,17 @@ def run(prog, rep):
             arg = canon(tr.operand(t["args"][1]))
             uses = e2.Uses(body)
             cons = e2.consume(body, uses, tr, t["dest"]["l"])
-            ok = re.match(r"^&Globals::nested\(&\*\*arg:config\.globals\)$", arg) is not None and all(c.kind == "TRY" and not c.chain for c in cons) and body.dominates(b, vis[0])
+            ok = re.match(r"^&Globals::nested\(&\*\*arg:config\.globals\)$", arg) is not None and all(c.kind in ("TRY", "MATCH-ERR", "RETURN") and not c.chain for c in cons) and body.dominates(b, vis[0])
             # the nested layer is what execution sees
             cfgs = [st for bb in sorted(body.reachable()) for st in body.blocks[bb]["stmts"] if st["k"] == "assign" and st["rv"]["k"] == "aggregate" and st["rv"].get("adt") == "tsg::execution::ExecutionConfig"]
             if cfgs:
                 d = dict(zip(cfgs[0]["rv"]["fields"], cfgs[0]["rv"]["ops"]))
                 ok = ok and canon(tr.operand(d["globals"])) == "&Globals::nested(&**arg:config.globals)"
+        if cgc:
+            rets = [x for x in body.reachable() if body.term(x)["k"] == "return"]
+            early = [x for x in rets if not body.dominates(cgc[0][0], x)]
+            rep.check(not early, "C16.D", "%s :: no result without validation" % f.id, f.loc(), "every return is dominated by the check_globals call",
+                      "the driver can return a result without having validated the globals (a missing required global is then not reported)")
         rep.check(ok, "C16.D", "%s :: check_globals first" % f.id, f.loc(), "check_globals(&mut nested)? dominates matching; execution sees the nested layer", "globals are not validated on a private nested layer before matching")
     # nested lookup uses the full lookup
     rep.rule("C16.N", "a nested variable set resolves a miss through its outer set's complete lookup (own map, then that set's context)")
